@@ -245,7 +245,7 @@ theorem parseGuard_bare (s : String) :
 example : builtinOutcome exH false "E" "xstate.choose" (chooseOne (some "nog") [.str "inc"]) sA =
     .failed (.missingGuard "nog") := by
   simp [builtinOutcome, Tables.act_CHOOSE, pickBranch, chooseBranches, chooseOne, J.get?, J.hasKey, parseGuard_bare,
-    Tables.stateInGuardType, exH]
+    Tables.stateInGuardType, exH, sA]
 /-- … contained, notified, the `inc` after it skipped, the error flag clear -/
 example : (execActionsF exH 3 [A "inc", chooseOne (some "nog") [.str "inc"], A "inc"] "E" sA).trace =
     ["#aerr:choose", "inc@E"] := by
@@ -254,7 +254,7 @@ example : (execActionsF exH 3 [A "inc", chooseOne (some "nog") [.str "inc"], A "
   rw [builtin_failed_effect exH 3 [A "inc"] [A "inc"] (chooseOne (some "nog") [.str "inc"]) "E" "xstate.choose" sA
     (.missingGuard "nog") ⟨by decide, by decide⟩ rfl (by decide)
     (by simp [builtinOutcome, cutOf, Tables.act_CHOOSE, pickBranch, chooseBranches, chooseOne, J.get?, J.hasKey,
-      parseGuard_bare, Tables.stateInGuardType, exH])]
+      parseGuard_bare, Tables.stateInGuardType, exH]; decide)]
   decide
 /-- a malformed branch (an action that is neither a string nor a dictionary): the same -/
 example : (execActionsF exH 3 [A "inc", chooseOne none [.num 3], A "inc"] "E" sA).trace =
